@@ -87,6 +87,14 @@ def handle (ws : List String) : String :=
          | none => "ok none"
          | some coll => "ok " ++ " ".intercalate (coll.map fun (t, side) =>
              s!"{t.kind.toString}:{side}:" ++ ",".intercalate (t.ps.map fun v => toString v.toBits)))
+  | "hextrav" :: first :: arr =>
+      -- vertex traversal of hexVertices on the adjacency table of the cyclic arrangement `arr`
+      (match first.toNat?, arr.mapM (·.toNat?) with
+       | some f, some a =>
+           match hexTraverse (adjOfCycle a) f with
+           | some vs => "ok " ++ " ".intercalate (vs.map fun (i, j) => s!"{i}-{j}")
+           | none => "ok none"
+       | _, _ => "err bad-number")
   | "fillmodel" :: items =>
       -- items: id:univ:fill(-|n):mathex:rhohex in deck order -> leaves of every filled level-0 cell
       (let cells := items.filterMap fun it =>
